@@ -386,6 +386,20 @@ fn case_builtin1<T: Elem>(case: u64, args: &Args, ev: &mut Ev) {
             let qa = Query::with_layout(&ArrayD::from_shape_vec(IxDyn(&shape), vals).unwrap(), kind, &lay);
             check1(&mut c, interp, &spec, &qa, &mut rng);
         }
+        // zero-stride (broadcast) query views: a scalar repeated, a row / column repeated
+        for (kind, reduced, full) in [
+            (QKind::S1, vec![1usize], vec![3usize]),
+            (QKind::S2, vec![1, 3], vec![2, 3]),
+            (QKind::S2, vec![2, 1], vec![2, 3]),
+            (QKind::Dyn, vec![1, 1, 2], vec![2, 3, 2]),
+            (QKind::S3, vec![1, 1, 1], vec![2, 1, 3]),
+        ] {
+            let n: usize = reduced.iter().product();
+            let vals = distinct_queries_with_knots(&mut rng, &x, n);
+            let qa = Query::broadcast(&ArrayD::from_shape_vec(IxDyn(&reduced), vals).unwrap(), &full, kind);
+            c.ev.count("query_layout", "broadcast");
+            check1(&mut c, interp, &spec, &qa, &mut rng);
+        }
         if !spec.strat.extrapolates() && spec.n_lanes() > 0 {
             check_error_agreement1(&mut c, interp, &x, &mut rng);
         }
@@ -467,6 +481,25 @@ fn case_builtin2<T: Elem>(case: u64, args: &Args, ev: &mut Ev) {
             c.ev.count("query_layout", lx.class());
             let qx = Query::with_layout(&ArrayD::from_shape_vec(IxDyn(&shape), vx).unwrap(), kind, &lx);
             let qy = Query::with_layout(&ArrayD::from_shape_vec(IxDyn(&shape), vy).unwrap(), kind, &ly);
+            check2(&mut c, interp, &spec, &qx, &qy, &mut rng);
+        }
+        // zero-stride (broadcast) query views: mesh grids (xs repeated along one axis, ys along
+        // another), a scalar against an array, both scalars
+        for (kind, rx, ry, full) in [
+            (QKind::S2, vec![1usize, 3], vec![2usize, 1], vec![2usize, 3]),
+            (QKind::S2, vec![2, 1], vec![1, 3], vec![2, 3]),
+            (QKind::Dyn, vec![1, 3], vec![2, 1], vec![2, 3]),
+            (QKind::S3, vec![1, 1, 3], vec![1, 2, 1], vec![2, 2, 3]),
+            (QKind::S1, vec![1], vec![3], vec![3]),
+            (QKind::S1, vec![1], vec![1], vec![4]),
+            (QKind::S2, vec![1, 3], vec![1, 3], vec![2, 3]),
+        ] {
+            let (nx_, ny_): (usize, usize) = (rx.iter().product(), ry.iter().product());
+            let vx = distinct_queries_with_knots(&mut rng, &x, nx_);
+            let vy = distinct_queries_with_knots(&mut rng, &y, ny_);
+            let qx = Query::broadcast(&ArrayD::from_shape_vec(IxDyn(&rx), vx).unwrap(), &full, kind);
+            let qy = Query::broadcast(&ArrayD::from_shape_vec(IxDyn(&ry), vy).unwrap(), &full, kind);
+            c.ev.count("query_layout", "broadcast");
             check2(&mut c, interp, &spec, &qx, &qy, &mut rng);
         }
         check_error_agreement2(&mut c, interp, &x, &y, &mut rng);
